@@ -62,6 +62,9 @@ type c12Case struct {
 	KeyTyp string `json:"keytyp,omitempty"` // ecdh | ecdsa | x25519
 	Priv   []byte `json:"priv,omitempty"`
 	Pub    []byte `json:"pub,omitempty"`
+	// ecdhes.produce: the other party's key pair halves (Priv2 belongs to Pub, Pub2 to Priv) for the inverse law
+	Priv2 []byte `json:"priv2,omitempty"`
+	Pub2  []byte `json:"pub2,omitempty"`
 	APU    []byte `json:"apu,omitempty"`
 	APV    []byte `json:"apv,omitempty"`
 	Size   int    `json:"size,omitempty"` // kdf only: output size
@@ -633,6 +636,8 @@ func (e *c12Exec) dispatch() {
 		e.ecdhesDerive()
 	case "ecdhes.kw":
 		e.ecdhesKW()
+	case "ecdhes.produce":
+		e.ecdhesProduce()
 	case "pbes2.wrap":
 		e.pbes2Wrap()
 	case "pbes2.unwrap":
@@ -841,6 +846,88 @@ func (e *c12Exec) ecdhesKW() {
 		e.expectInverse("ecdhes-kw", g, cs.In)
 	}
 	e.mustFail(g)
+}
+
+// ecdhesProduce: the PRODUCER path `DeriveKey` (direct and +A*KW), four-way, plus the inverse law on
+// goat alone: the other party's UnwrapKey recovers the CEK.  (The JWE-level sender plumbing — which key
+// ends up in `epk` — is C05's subject; here the wrapper holds our private key and `epk` the peer's.)
+func (e *c12Exec) ecdhesProduce() {
+	cs := e.cs
+	priv, epk, err := c12ECKeys(cs.KeyTyp, cs.Crv, cs.Priv, cs.Pub)
+	if err != nil {
+		e.nt = false
+		return
+	}
+	opts := &c12Opts{enc: jwa.EncryptionAlgorithm(cs.Enc), epk: epk, apu: cs.APU, apv: cs.APV}
+	g := goRes2(func() ([]byte, []byte, error) {
+		d, ok := e.ecdhesw(cs)(priv).(keymanage.KeyDeriver)
+		if !ok {
+			return nil, nil, fmt.Errorf("not a KeyDeriver")
+		}
+		return d.DeriveKey(opts)
+	})
+	z, zok := c12ECDH(cs.Crv, cs.Priv, cs.Pub)
+	if !zok {
+		e.nt = false
+		return
+	}
+	size, algID := c12CEKSize(cs.Enc), []byte(cs.Enc)
+	if cs.Alg > 0 {
+		size, algID = c12KeySizes[cs.Alg-1], []byte(c12KWNames[cs.Alg])
+	}
+	kek := refConcatKDF(z, algID, cs.APU, cs.APV, size) // RFC 7518 §4.6.2: apu, then apv — whoever computes
+	cek := []byte{}
+	if g.Tag == "ok" && cs.Alg > 0 {
+		cek = g.A // the CEK goat drew from crypto/rand (C19); everything else is a function of it
+	}
+	var r c12Res
+	switch {
+	case cs.NoUse:
+		r = c12Err("")
+	case cs.Alg == 0:
+		r = c12OK2(kek, []byte{})
+	default:
+		w, ok := refKWWrap(kek, cek)
+		r = c12FromRef(w, ok)
+		if ok {
+			r = c12OK2(cek, w)
+		}
+		if len(cek) != c12CEKSize(cs.Enc) {
+			e.c.Fail(vf.Violation{Kind: "property", Class: "c12-ecdhes-produce-ceksize", What: e.step + "DeriveKey drew a CEK of the wrong size", Case: e.rep(),
+				Observed: fmt.Sprint(len(cek)), Required: fmt.Sprint(c12CEKSize(cs.Enc))})
+		}
+	}
+	rec := &c12Rec{c: e.c}
+	msize := 0
+	if cs.Alg > 0 {
+		msize = c12KeySizes[cs.Alg-1]
+	}
+	m := c12FromWire(e.d.Call("c12.ecdhes.produce", []vf.Wire{vf.Str(c12KWNames[cs.Alg]), vf.Int(int64(msize)), vf.Bool(!cs.NoUse),
+		vf.Str(cs.Enc), vf.Str(cs.Crv), vf.Bytes(cs.Priv), vf.Bytes(cs.Pub), vf.Bytes(cs.APU), vf.Bytes(cs.APV), vf.Bytes(cek)}, rec.oracle))
+	var s c12Res
+	haveSpec := !cs.NoUse && (cs.Alg == 0 || len(cek)%8 == 0)
+	if haveSpec {
+		sk := c12FromWire(e.d.Call("c12.spec.kdf", []vf.Wire{rec.table(), vf.Bytes(z), vf.Bytes(algID), vf.Bytes(cs.APU), vf.Bytes(cs.APV), vf.Int(int64(size))}, nil))
+		if cs.Alg == 0 {
+			s = c12OK2(sk.A, []byte{})
+		} else {
+			sw := c12FromWire(e.d.Call("c12.spec.akw.wrap", []vf.Wire{rec.table(), vf.Bytes(sk.A), vf.Bytes(cek)}, nil))
+			s = c12OK2(cek, sw.A)
+		}
+	}
+	e.all4("ecdhes-produce", g, r, m, s, true, haveSpec)
+	e.c.Count(fmt.Sprintf("ecdhes-produce/mode%d/%s", cs.Alg, cs.Crv))
+	e.nt = !cs.NoUse
+	// inverse law on goat alone: the peer (private key Priv2, our public key Pub2 as epk) recovers the CEK
+	if g.Tag == "ok" && cs.Priv2 != nil {
+		peer := cs
+		peer.Priv, peer.Pub, peer.NoUse = cs.Priv2, cs.Pub2, false
+		back := c12GoatECDHESOn(peer, g.B, func(p any) keymanage.KeyWrapper {
+			return c12ECDHES(cs.Alg).NewKeyWrapper(c12AnyKey{priv: p})
+		})
+		e.cmp("c12-ecdhes-produce-roundtrip", "ecdhes: the peer's UnwrapKey(DeriveKey(...)) does not recover the CEK", back, c12OK(g.A), "property")
+		e.c.Count("roundtrip/ecdhes-produce")
+	}
 }
 
 // ---- PBES2 ----
